@@ -503,3 +503,107 @@ def sp5(P, C):
          "the free set grows only by the store in the row-add loop" if not bulk and not cnt_writes else
          "%s puts several released rows into the free set at once: the columns extracted for the first of them already have entries for rows that are not in the factor yet" %
          f.render((bulk + cnt_writes)[0])[:70])
+
+
+def sp6(P, C):
+    """SP-6: the row taken out of / put into the factor is the coefficient that changes sets."""
+    C.rule("SP-6", "in each transfer loop of modify_factor_p the element that moves between the free and the constrained set (`G[nG++] = H1[i]`, "
+           "`F[nF++] = H2[i]`) is also the row of the factor that is deleted / added: the first argument of cholmod_l_rowdel / cholmod_l_rowadd is "
+           "that element, or iPerm[that element] — in both arms of the permutation test — and the column extracted by get_column is its "
+           "column. Deleting another row (a neighbour in the compacted set) leaves the constrained coefficient in the factor and drops a free one", floor=3)
+    from . import ts as _ts
+    fs_ = [f for f in P.fns("modify_factor_p") if f.unit.startswith("fitter/")]
+    if len(fs_) != 1:
+        raise core.AnalysisBroken("SP-6: modify_factor_p not found")
+    f = fs_[0]
+    n = 0
+    for i, cal in f.calls():
+        if not cal or cal["name"] not in ("cholmod_l_rowdel", "cholmod_l_rowadd", "get_column"):
+            continue
+        L = next((a for a in f.ancestors(i) if f.k(a) == "ForStmt"), None)
+        if L is None:
+            C.ob("SP-6", f.name, "%s-outside-loop" % cal["name"], False, f.loc(i), "%s is not inside a transfer loop" % cal["name"])
+            continue
+        # the element that changes sets in this loop: SET[count++] = E, a statement of the loop body itself
+        moved = []
+        body = f.nodes[L]["body"]
+        for x in (f.ch(body) if f.k(body) == "CompoundStmt" else [body]):
+            ap = _ts.assign_parts(f, x)
+            if ap and ap[1] is not None and f.nodes[f.strip(x)].get("op", f.nodes[x].get("op")) == "=":
+                l = f.strip(ap[0])
+                if f.k(l) == "ArraySubscriptExpr":
+                    idx = f.strip(f.nodes[l]["ch"][1])
+                    if f.k(idx) == "UnaryOperator" and f.nodes[idx].get("op") == "++":
+                        moved.append(f.render(ap[1]).replace(" ", ""))
+        arg = f.args(i)[1] if cal["name"] == "get_column" else f.args(i)[0]
+        a = f.strip(arg)
+        forms = []
+        if f.k(a) == "ConditionalOperator":
+            forms = [f.strip(f.nodes[a]["ch"][1]), f.strip(f.nodes[a]["ch"][2])]
+        else:
+            forms = [a]
+        elems = []
+        for x in forms:
+            # E or PERM[E]
+            t = f.render(x).replace(" ", "")
+            if f.k(x) == "ArraySubscriptExpr" and "Perm" in f.render(f.nodes[x]["ch"][0]):
+                t = f.render(f.strip(f.nodes[x]["ch"][1])).replace(" ", "")
+            elems.append(t)
+        n += 1
+        ok = len(moved) == 1 and all(e == moved[0] for e in elems)
+        C.ob("SP-6", f.name, "%s-row#%d" % (cal["name"], n), ok, f.loc(i),
+             "%s acts on %s, the element this loop moves between the sets" % (cal["name"], moved[0]) if ok else
+             "%s acts on row %s, but the element this loop moves between the sets is %s: the factor loses or gains the wrong row" % (cal["name"], sorted(set(elems)), moved))
+    if n < 3:
+        raise core.AnalysisBroken("SP-6: expected rowdel, rowadd and get_column in modify_factor_p, found %d call(s)" % n)
+
+
+def sp7(P, C):
+    """SP-7: a sub-factor whose columns are copied by position is analysed with the given permutation and nothing else."""
+    C.rule("SP-7", "every cholmod_l_analyze_p in the fitter that is handed a permutation runs with the ordering forced: on every path to the call the "
+           "last store to the common's `nmethods` is the constant 1 and the last store to `postorder` is false, in the same function (must-"
+           "dataflow over the CFG). With more methods enabled CHOLMOD also tries AMD on the sub-matrix and keeps the ordering with less fill; the "
+           "columns of the sub-factor are then copied into the full factor at positions derived from the permutation that was handed in", floor=1)
+    from . import ts as _ts
+    n = 0
+    for f in sorted(P.functions.values(), key=lambda g: (g.file, g.line)):
+        if not f.unit.startswith("fitter/") or not f.cfg:
+            continue
+        calls = [i for i, cal in f.calls() if cal and cal["name"] == "cholmod_l_analyze_p"]
+        for ci in calls:
+            perm = f.strip(f.args(ci)[1])
+            if f.k(perm) in ("GNUNullExpr", "CXXNullPtrLiteralExpr") or f.nodes[perm].get("cv") == 0 or f.render(perm).replace(" ", "") in ("NULL", "((void*)0)"):
+                continue
+            n += 1
+
+            def transfer(state, e, _b=None, _j=None, _f=f):
+                i = e.get("n", -1) if e.get("kind") == "stmt" else -1
+                if i < 0:
+                    return state
+                ap = _ts.assign_parts(_f, i)
+                if ap and ap[1] is not None:
+                    l = _f.strip(ap[0])
+                    if _f.k(l) == "MemberExpr" and _f.nodes[l].get("member") in ("nmethods", "postorder"):
+                        r = _f.strip(ap[1])
+                        v = _f.nodes[r].get("cv", _f.nodes[r].get("v"))
+                        if isinstance(v, bool):
+                            v = int(v)
+                        state = dict(state)
+                        state[_f.nodes[l]["member"]] = v if isinstance(v, int) else "?"
+                return state
+
+            def join(a, b):
+                return {k: (a.get(k) if a.get(k) == b.get(k) else "?") for k in set(a) | set(b)}
+            IN, _OUT = core.dataflow(f, {"nmethods": "?", "postorder": "?"}, transfer, join)
+            pos = f.node_positions()
+            st = None
+            if ci in pos and pos[ci][0] in IN:
+                b, j = pos[ci]
+                st = core.state_before(f, IN, transfer, b, j)
+            ok = st is not None and st.get("nmethods") == 1 and st.get("postorder") == 0
+            C.ob("SP-7", f.name, "analyze_p#%d" % n, ok, f.loc(ci),
+                 "the given permutation is the only ordering CHOLMOD may use here (nmethods = 1, postorder = false on every path)" if ok else
+                 "cholmod_l_analyze_p(%s) is reached with nmethods = %s, postorder = %s: CHOLMOD may choose another ordering than the one handed in, "
+                 "and the sub-factor's columns are copied by the positions of that one" % (f.render(perm), (st or {}).get("nmethods"), (st or {}).get("postorder")))
+    if n == 0:
+        raise core.AnalysisBroken("SP-7: no cholmod_l_analyze_p with a permutation found in the fitter")
